@@ -481,9 +481,9 @@ def sessions(log):
     return out
 
 
-def json_boundaries(text, depth):
+def json_boundaries(text, depth, after=True):
     """Byte offsets of the structural characters { } [ ] , : of a JSON text at nesting depth <= depth
-    (offset of the character and the offset just behind it)."""
+    (offset of the character and, with after=True, also the offset just behind it)."""
     out = set()
     d = 0
     in_str = False
@@ -501,15 +501,15 @@ def json_boundaries(text, depth):
             in_str = True
         elif c in '{[':
             if d <= depth:
-                out.update((i, i + 1))
+                out.update((i, i + 1) if after else (i,))
             d += 1
         elif c in '}]':
             d -= 1
             if d <= depth:
-                out.update((i, i + 1))
+                out.update((i, i + 1) if after else (i,))
         elif c in ',:':
             if d <= depth:
-                out.update((i, i + 1))
+                out.update((i, i + 1) if after else (i,))
     return out
 
 
@@ -517,7 +517,8 @@ def offset_classes(session, json_depth=2):
     """Representative byte offsets inside one write session (the 'quick' offset classes):
     0, 1, len-1, len, every write-call boundary of a binary stream (gzip header fields, deflate
     stream, CRC, size), the middle of every binary write longer than 16 bytes, and for a JSON text
-    every structural token boundary down to `json_depth`."""
+    the offset of every structural token down to nesting depth `json_depth` (both sides of it down
+    to depth 1)."""
     content = session['content']
     n = len(content)
     cls = {0, 1, n - 1, n}
@@ -527,7 +528,7 @@ def offset_classes(session, json_depth=2):
     except UnicodeDecodeError:
         pass
     if text is not None and text[:1] in '[{':
-        cls |= json_boundaries(text, json_depth)
+        cls |= json_boundaries(text, json_depth, after=False) | json_boundaries(text, 1, after=True)
     else:
         for _i, start, ln in session['writes']:
             cls.update((start, start + ln))
